@@ -634,7 +634,7 @@ pub fn finish(ctx: &Ctx) -> i32 {
     crate::engine::finish(
         ctx,
         Finish {
-            rule: "cases: (a) negative sweep: every sweep instruction (every opcode min/max, every enumerant, every mask value, every embeddable opcode) intact / one word missing / one word surplus / enumerant replaced by the nearest undeclared value / lowest undeclared mask bit set, behind two well-formed instructions; (b) every truncation byte position of small generated modules; (c) random generated modules (layout-ordered, interleaved, wild) with 0-3 stacked byte-level faults (truncate, word count, opcode, operand word, delete/insert/duplicate word, string faults, magic, short header, stray bytes). Oracle: independent reference parser R1 decides accept / first malformed instruction / admissible fault classes from the bytes alone; compared with parse_bytes (and parse_words) result, delivered header and instructions, error class, instruction number and byte offset; the Display text of the error must not contradict those fields (a number after '#' is the instruction number, a number after 'offset ' is the offset). non-trivial = rejected binary with >= 2 well-formed instructions before the fault, or accepted binary with >= 5 instructions; distinct = hash of the bytes.",
+            rule: "cases: (a) negative sweep: every sweep instruction (every opcode min/max, every enumerant, every mask value, every embeddable opcode) intact / one word missing / one word surplus / enumerant replaced by the nearest undeclared value / lowest undeclared mask bit set, behind two well-formed instructions; (b) every truncation byte position of small generated modules; (c) random generated modules (layout-ordered, interleaved, wild) with 0-3 stacked byte-level faults (truncate, word count, opcode, operand word, delete/insert/duplicate word, string faults, magic, short header, stray bytes). Oracle: independent reference parser R1 decides accept / first malformed instruction / admissible fault classes from the bytes alone; compared with parse_bytes (and parse_words) result, delivered header and instructions, error class, instruction number and byte offset; the Display text of the error must not contradict those fields (a number after '#' is the instruction number, a number after 'offset ' is the offset). non-trivial = rejected binary with >= 2 well-formed instructions before the fault, or accepted binary with >= 5 instructions; distinct = hash of the bytes. Added in rounds 18-19: structural-variations (as C01) and bulk-modules (binaries of up to 10^6 instructions crossing 2^16 / 2^17 / 2^18 / 2^20 declarations); shifted buffer addresses; generator word of every registered tool.",
             assumptions: vec![
                 "grammar facts come from the golden snapshot (see C09)".into(),
                 "don't-care: 1-3 stray bytes after the last complete instruction; OpSpecConstantOp embedding OpConstant/OpSpecConstant/OpSwitch/OpSpecConstantOp (verdict open, no panic required by C04)".into(),
